@@ -19,7 +19,19 @@ def main(argv):
             data = json.loads(open(argv[1]).read())
             mod = importlib.import_module(f"mbt.{data['property'].lower()}")
             core.build_repo()
-            out = getattr(mod, "replay_any", mod.replay)(data["rec"], None)
+            rec = data.get("rec")
+            out = None
+            if isinstance(rec, dict):
+                try:
+                    out = getattr(mod, "replay_any", mod.replay)(rec, None)
+                except (KeyError, TypeError):
+                    out = None          # not a single-case record (a recorded trace, a whole-run check)
+            if out is None:
+                # the violation was found by a part of the check that has no single-case replay (recorded traces validated by
+                # TLC, sweeps over a whole area or grid): the quick check of the property is re-run instead
+                print(f"no single-case replay for this record: re-running the quick check of {data['property']}")
+                return main([data["property"], "quick"])
+            out = [x for x in out if "sig" in x]
             print(json.dumps(out, indent=1, default=str))
             return 1 if out else 0
         if argv[0] == "--selftest":
